@@ -11,7 +11,14 @@ SeqCase(h) == LET s == Fold(St0, h, 1) IN
   [ops |-> h, items |-> s.items, intended |-> Expected(s.intended), nums |-> [k \in DOMAIN s.intended |-> IF s.intended[k][1] = "num" THEN s.intended[k][2] ELSE 0],
    numbytes |-> [k \in DOMAIN s.intended |-> IF s.intended[k][1] = "num" THEN ScriptNumBytes(s.intended[k][2]) ELSE << >>],
    minimal_ok |-> ~HasExplicitSmall(s.intended)]
-SeqCases == { SeqCase(h) : h \in { x \in Seqs(GenLen) : Len(x) >= 1 } }
+\* beyond three operations the full alphabet is out of reach (36^4); longer sequences run over a core alphabet: a foldable and a
+\* plain opcode, a small and a large integer, an empty, a one-byte and a PUSHDATA1 slice, push_verify
+CoreOps == { [k |-> "opcode", b |-> OP_CHECKSIG], [k |-> "opcode", b |-> OP_DUP], [k |-> "int", v |-> 1], [k |-> "int", v |-> 128], [k |-> "scriptint", v |-> 0],
+             [k |-> "slice", n |-> 0, cls |-> "other"], [k |-> "slice", n |-> 1, cls |-> "small"], [k |-> "slice", n |-> 76, cls |-> "other"], [k |-> "verify"] }
+RECURSIVE CoreSeqs(_)
+CoreSeqs(k) == IF k = 0 THEN { << >> } ELSE { Append(h, a) : h \in CoreSeqs(k - 1), a \in CoreOps }
+FullLen == IF GenLen > 3 THEN 3 ELSE GenLen
+SeqCases == { SeqCase(h) : h \in { x \in Seqs(FullLen) : Len(x) >= 1 } } \cup (IF GenLen > 3 THEN { SeqCase(h) : h \in UNION { CoreSeqs(k) : k \in 4..GenLen } } ELSE {})
 NumCases == { [v |-> v, bytes |-> ScriptNumBytes(v)] : v \in Nums }
 ASSUME \A b \in T!Family : T!Exclusive(b)
 GInit == st = St0 /\ n = 0
